@@ -113,3 +113,60 @@ Proof.
   intros H. unfold mh_encode_bytes, uvarint_encode.
   apply Forall_app. split; [apply uv_enc_bytes|]. apply Forall_app. split; [apply uv_enc_bytes|exact H].
 Qed.
+
+(* ---- a decoded multihash code fits in 63 bits (at most nine varint octets) ---- *)
+
+Lemma lor_lt_pow2 a b n : a < 2 ^ n -> b < 2 ^ n -> N.lor a b < 2 ^ n.
+Proof.
+  intros Ha Hb. destruct (N.eq_dec (N.lor a b) 0) as [E|NE]; [rewrite E; apply N.neq_0_lt_0, N.pow_nonzero; lia|].
+  apply N.log2_lt_pow2; [lia|]. rewrite N.log2_lor.
+  destruct (N.eq_dec a 0) as [->|Na]; destruct (N.eq_dec b 0) as [->|Nb].
+  - cbn in NE. congruence.
+  - rewrite N.max_r by (cbn; lia). apply N.log2_lt_pow2; lia.
+  - rewrite N.max_l by (cbn; lia). apply N.log2_lt_pow2; lia.
+  - apply N.max_lub_lt; apply N.log2_lt_pow2; lia.
+Qed.
+
+Lemma uv_dec_lt l : forall i x s v r,
+  Forall (fun b => b < 256) l -> s = 7 * N.of_nat i -> x < 2 ^ s ->
+  uv_dec i x s l = Some (v, r) -> v < 2 ^ 63.
+Proof.
+  induction l as [|b rest IH]; intros i x s v r F Hs Hx H; cbn [uv_dec] in H; [discriminate|].
+  inversion F as [|? ? Hb Frest]; subst.
+  destruct (orb (andb (Nat.eqb i 8) (128 <=? b)) (Nat.leb 9 i)) eqn:Ec; [discriminate|].
+  apply orb_false_iff in Ec as [E1 E2]. apply Nat.leb_gt in E2.
+  destruct (N.ltb_spec b 128) as [Lb|Lb].
+  - destruct (andb (b =? 0) (0 <? 7 * N.of_nat i)); [discriminate|]. injection H as <- <-.
+    apply N.lt_le_trans with (2 ^ (7 * N.of_nat i + 7)).
+    + apply lor_lt_pow2.
+      * eapply N.lt_le_trans; [exact Hx|]. apply N.pow_le_mono_r; lia.
+      * rewrite N.shiftl_mul_pow2, N.pow_add_r. replace (2 ^ 7) with 128 by reflexivity.
+        rewrite (N.mul_comm (2 ^ (7 * N.of_nat i)) 128). apply N.mul_lt_mono_pos_r; [apply N.neq_0_lt_0, N.pow_nonzero; lia|exact Lb].
+    + apply N.pow_le_mono_r; lia.
+  - assert (Hi : (i < 8)%nat).
+    { destruct (Nat.eqb_spec i 8) as [->|]; [|lia]. cbn [andb] in E1. apply N.leb_gt in E1. lia. }
+    eapply (IH (S i)); [exact Frest| |  |exact H].
+    + lia.
+    + replace (7 * N.of_nat (S i)) with (7 * N.of_nat i + 7) by lia.
+      apply lor_lt_pow2.
+      * eapply N.lt_le_trans; [exact Hx|]. apply N.pow_le_mono_r; lia.
+      * rewrite N.shiftl_mul_pow2, N.pow_add_r. replace (2 ^ 7) with 128 by reflexivity.
+        rewrite (N.mul_comm (2 ^ (7 * N.of_nat i)) 128). apply N.mul_lt_mono_pos_r; [apply N.neq_0_lt_0, N.pow_nonzero; lia|lia].
+Qed.
+
+Lemma mh_decode_bytes_code_lt buf c d : Forall (fun b => b < 256) buf -> mh_decode_bytes buf = Some (c, d) -> c < 2 ^ 63.
+Proof.
+  intros F. unfold mh_decode_bytes. destruct (Nat.ltb _ 2); [discriminate|].
+  destruct (uvarint_decode buf) as [[code r1]|] eqn:E; [|discriminate].
+  destruct (uvarint_decode r1) as [[len r2]|]; [|discriminate].
+  destruct (_ <? len); [discriminate|]. destruct (_ <? len); [discriminate|]. destruct (negb _); [discriminate|].
+  intros H. injection H as <- _. unfold uvarint_decode in E.
+  eapply (uv_dec_lt buf 0%nat 0 0); eauto; cbn; lia.
+Qed.
+
+Lemma mh_decode_code_lt s c d : mh_decode s = Some (c, d) -> c < 2 ^ 63.
+Proof.
+  unfold mh_decode. destruct (mh_decode_bytes (bytes_of_string s)) as [[c' d']|] eqn:E; [|discriminate].
+  intros H. injection H as <- _. eapply mh_decode_bytes_code_lt; [|exact E].
+  eapply Forall_impl; [|apply bytes_of_string_bytes]. intros b Hb. exact Hb.
+Qed.
